@@ -446,7 +446,8 @@ class Ctx:
     def violation(self, case, expected, actual, note=""):
         """a concrete in-domain input on which the implementation differs from the proved model"""
         payload = {"property": self.prop, "seed": self.seed, "tier": self.tier, "case": case,
-                   "model": expected, "implementation": actual, "note": note}
+                   "model": expected, "implementation": actual, "note": note,
+                   "reference_mode": bool(getattr(self, "reference_mode", False))}
         path = write_replay(self.prop, case_hash(case), payload)
         self.violations.append((path, ""))
 
@@ -470,6 +471,11 @@ def run_check(ctx, mod):
             build_harness()
             if getattr(mod, "NEEDS_BINARY", False):
                 build_binary()
+        if ctx.broken and getattr(mod, "USES_GEN", False):
+            # a proof about the bundled Scheme sources no longer checks: search for a failing input with
+            # the model running the reference sources (ref/*.sld) for which the theorems were proved
+            ctx.reference_mode = True
+            log("reference mode: the model runs /verif/ref/*.sld, the implementation runs /repo's sources")
         cov = mod.explore(ctx) or {}
     except Failure as f:
         ctx.broken.append(f)
@@ -523,7 +529,8 @@ def run_cases(ctx, cases, compare=None, classify=None, limit=10, timeout=900):
         lines.append("RESET")
         lines.extend(c["lines"])
         spans.append((start + 1, len(lines)))
-    m = run_lines(DRIVER_EXE, lines, timeout)
+    menv = {"RUSCHM_SLD_DIR": os.path.join(VERIF, "ref")} if getattr(ctx, "reference_mode", False) else None
+    m = run_lines(DRIVER_EXE, lines, timeout, env=menv)
     i = run_lines(HARNESS_EXE, lines, timeout)
     results, ndis, reported = [], 0, 0
     for c, (a, b) in zip(cases, spans):
@@ -561,7 +568,10 @@ def replay_case(ctx, path, compare=None):
         build_driver()
         build_harness()
     lines = ["RESET"] + case["lines"]
-    m = run_lines(DRIVER_EXE, lines, 300)
+    menv = {"RUSCHM_SLD_DIR": os.path.join(VERIF, "ref")} if payload.get("reference_mode") else None
+    if menv:
+        print("reference mode: the model runs /verif/ref/*.sld")
+    m = run_lines(DRIVER_EXE, lines, 300, env=menv)
     i = run_lines(HARNESS_EXE, lines, 300)
     bad = 0
     for l, x, y in zip(lines, m, i):
